@@ -13,7 +13,9 @@ git -C $WT apply -R $OUT/patch.diff
 git -C $WT apply $OUT/patch.diff
 cat $OUT/demo_exit.txt
 # run our check on it
+cp /verif/evidence/$PROP.json /tmp/evidence.$PROP.keep 2>/dev/null
 git -C /repo apply $OUT/patch.diff && ( cd /verif && ./check $PROP > $OUT/check.log 2>&1; echo "check exit=$?" >> $OUT/demo_exit.txt ); git -C /repo checkout -- . 
+mv /tmp/evidence.$PROP.keep /verif/evidence/$PROP.json 2>/dev/null   # the evidence file must describe the unchanged tree, not the seeded run
 tail -1 $OUT/demo_exit.txt; grep -E "VIOLATION|failed obligation|CHECKER|UNDECIDED" $OUT/check.log | head -8; tail -1 $OUT/check.log
 git -C /repo status --short
 python3 - "$ID" "$PROP" <<'PY'
